@@ -65,6 +65,7 @@ type Val struct {
 	From  *CallEvent // for a Seq value: the call that produced it
 	Idx   Term       // for an element of a constant function table: the index
 	Elems []Val      // for a slice built from a local array literal: its elements (Go-side)
+	Fresh bool       // a slice whose backing array was allocated by this function (make, append to nil, io.ReadAll): shared with nobody yet
 }
 
 type CallEvent struct {
